@@ -50,6 +50,8 @@ func c02Check(t tb, bc behContext) {
 
 func TestC02(t *testing.T) {
 	col := ev.Get()
+	// an accepted configuration over existing symbols whose output does not compile builds no service as declared
+	behCompileErrIsViolation = true
 	var rc behCase
 	if replayPayload(t, &rc) {
 		behBatch(t, rc, c02NonTrivial, c02Check, nil)
